@@ -9,7 +9,7 @@ LEAF = ['Leaf_chart', 'Leaf_fromfile', 'Leaf_dispatch', 'Leaf_tracks']      # tr
 RULE = ("charts with a random subset (0-6) of the 40 tracks; selections: None, [], single pairs, subsets, supersets, pairs absent from the file, pairs differing in both instrument and difficulty "
         "(cross products), duplicated pairs, a tuple instead of a list; optionally ONE instrument section's body replaced by garbage, by another track's body, or by a body that cannot be built "
         "(forced first note, note governed by a zero tempo); optionally extra sections whose names merely BEGIN with a track's name ([ExpertSingle_old], [HardDrums (disabled)], ...) "
-        "with a copy of the real body, another valid body or an unbuildable one, placed right after the real section or anywhere; judged against the implementation's unrestricted parse of the ORIGINAL text: metadata / sync / events equal, every (instrument, "
+        "with a copy of the real body, another valid body or an unbuildable one, placed right after the real section or anywhere; occasionally a section written twice (its later copy counts); judged against the implementation's unrestricted parse of the ORIGINAL text: metadata / sync / events equal, every (instrument, "
         "difficulty) other than the replaced one has exactly the unrestricted track if selected and none otherwise, no empty instrument entry, and a selection alone never turns a successful "
         "parse into a failure (a replaced body may only when it is selected). Non-trivial: a selection other than None or a replaced body; distinct by (text, selection)")
 ASSUMPTIONS = ["a section name written twice denotes its later copy (dict assignment); such files are generated too: restricted and unrestricted parses must agree on them"]
